@@ -20,8 +20,12 @@ VARIABLES tid, l,
           cancelled,   \* clients whose task was cancelled by the environment
           rconn,       \* [release task -> connection] for pending no_wait_release tasks (0: none)
           relc,        \* [client -> connection] being given back by an awaited release() (0: none)
-          bad          \* first violated Mon-only clause (0: none)
-mvars == <<present, ready, busy, waiters, cstat, holders, inAcq, inRel, rpend, owed, quiet, tid, l, cancelled, rconn, relc, bad>>
+          bad,         \* first violated Mon-only clause (0: none)
+          exl,         \* [connection -> line at which the remote end ended it while it was idle (0: not)]
+          relL,        \* [client -> line at which its awaited release() began]
+          rL           \* [release task -> line at which it was created]
+mvars == <<present, ready, busy, waiters, cstat, holders, inAcq, inRel, rpend, owed, quiet, tid, l, cancelled, rconn, relc, bad,
+           exl, relL, rL>>
 
 Ev  == Batch[tid].ev
 Cur == Ev[l]
@@ -36,6 +40,7 @@ MInit ==
   /\ holders = [x \in Conns |-> {}] /\ inAcq = [c \in Clients |-> 0] /\ inRel = [c \in Clients |-> FALSE]
   /\ rpend = {} /\ owed = {} /\ quiet = TRUE
   /\ cancelled = {} /\ rconn = [r \in RIds |-> 0] /\ relc = [c \in Clients |-> 0] /\ bad = 0
+  /\ exl = [x \in Conns |-> 0] /\ relL = [c \in Clients |-> 0] /\ rL = [r \in RIds |-> 0]
 
 IdleNow(x) == \E k \in Keys : x \in ready[k]
 
@@ -53,6 +58,11 @@ MNext ==
      /\ cstat'   = [x \in Conns |->
                       IF x \notin dd THEN "up"
                       ELSE IF e.e = "kill" /\ e.x = x /\ IdleNow(x) THEN "ex"
+                      \* a release() that began after the connection was ended has completed: its clean() has run, the
+                      \* excuse is over (a connection reset by the peer is as dead as one closed in good order)
+                      ELSE IF cstat[x] = "ex" /\ exl[x] > 0
+                              /\ \/ (e.e = "reld" /\ relL[e.c] > exl[x])
+                                 \/ (e.e = "rtask" /\ e.r \in RIds /\ rL[e.r] > exl[x]) THEN "dn"
                       ELSE IF cstat[x] = "ex" /\ IdleNow(x) /\ (\E k \in Keys : x \in rd2[k]) THEN "ex"
                       ELSE "dn"]
      /\ holders' = IF e.e = "got" /\ e.x \in Conns THEN [holders EXCEPT ![e.x] = @ \cup {e.c}]
@@ -73,6 +83,10 @@ MNext ==
      /\ relc'    = IF e.e = "rel" /\ e.mode = "a" THEN [relc EXCEPT ![e.c] = e.x]
                    ELSE IF e.e \in {"reld", "relx"} THEN [relc EXCEPT ![e.c] = 0]
                    ELSE relc
+     /\ exl'     = [x \in Conns |-> IF e.e = "kill" /\ e.x = x /\ IdleNow(x) /\ x \in dd THEN l
+                                     ELSE IF x \notin dd THEN 0 ELSE exl[x]]
+     /\ relL'    = IF e.e = "rel" /\ e.mode = "a" THEN [relL EXCEPT ![e.c] = l] ELSE relL
+     /\ rL'      = IF e.e = "rel" /\ e.mode = "n" /\ e.r \in RIds THEN [rL EXCEPT ![e.r] = l] ELSE rL
      /\ owed'    = ({rconn'[r] : r \in RIds} \cup {relc'[c] : c \in Clients}) \ {0}
      /\ quiet'   = (e.e \in {"quiet", "end"})
      /\ cancelled' = IF e.e = "cancel" THEN cancelled \cup {e.c} ELSE cancelled
